@@ -19,6 +19,7 @@ pub struct Wt {
 pub fn wt_cfg() -> Cfg {
     Cfg {
         shadow_pct: 12,
+        max_modules: 4,
         ..Cfg::default()
     }
 }
